@@ -17,6 +17,25 @@ theorem reorder_preserves_env (l1 l2 : List Imp) (hp : l1.Perm l2) (hnd : (l1.ma
 theorem unique_binding (imps : List Imp) (hnd : (imps.map Imp.bound).Nodup) (i : Imp) (hi : i ∈ imps) :
     env imps i.bound = some i.target := env_eq_of_unique imps hnd i hi
 
+/-- **Removing unused or duplicate import statements keeps every other binding**: dropping any selection of statements leaves
+the object bound to `x` unchanged for every `x` that none of the dropped statements binds -/
+theorem removal_preserves_env (imps : List Imp) (keep : Imp → Bool) (x : String)
+    (h : ∀ i ∈ imps, keep i = false → i.bound ≠ x) : env (imps.filter keep) x = env imps x := env_filter imps keep x h
+
+/-- a statement whose name is bound again by a later import can be dropped without changing any binding -/
+theorem shadowed_import_removable (a b : List Imp) (i : Imp) (h : ∃ j ∈ b, j.bound = i.bound) (x : String) :
+    env (a ++ i :: b) x = env (a ++ b) x := env_remove_shadowed a b i h x
+
+/-- **The validator is sound**: when it accepts a rewrite of the import statements, every used name is bound to the same
+object before and after (the check that the suite `import-validate` runs on every output of the real import rules) -/
+theorem import_rewrite_check_sound (used : List String) (before after : List Imp) (h : agreeOn used before after = true) :
+    ∀ x ∈ used, env before x = env after x := agreeOn_sound used before after h
+
+/-- the validator is not trivial: it rejects the alias collision once sorted, and accepts dropping an unused statement -/
+example : agreeOn ["x"] [.from_ "m" "other" (some "x"), .from_ "m" "helper" (some "x")]
+    [.from_ "m" "helper" (some "x"), .from_ "m" "other" (some "x")] = false := by decide
+example : agreeOn ["o"] [.plain "os" (some "o"), .plain "json" (some "j")] [.plain "os" (some "o")] = true := by decide
+
 /-- the side condition is necessary: two imports binding the same alias — sorting them re-binds the alias
 (`from m import other as x` / `from m import helper as x`; replayed on the code, known finding) -/
 theorem alias_collision_counterexample :
